@@ -7,6 +7,10 @@ Template directives (every directive is a line starting with //@@):
   //@@ item file="src/..rs" kind=const name=BINARY_ONE [sub="/pat/=>repl"]
   //@@ fn file="src/..rs" impl="^impl Row" name=increment_at [nth=0] [rules=T1,T3] [ret=r]
   //@@ sigsub /regex/ => replacement         (mechanical signature edit, stated in evidence)
+  //@@ ghostparam Tracked(w): Tracked<&mut World>          (T6: ghost, erased parameter appended to the parameter list)
+  //@@ ghostarg callee=add,delete arg="Tracked(&mut *w)"  (T6: the ghost argument appended at each call of the listed callees)
+  //@@ closure 1                               (T7: typed header + ensures for the 1st closure literal)
+  //@@ entry                                   (ghost statements placed at function entry)
   //@@ attrs
   ...                                         (attribute lines placed before the fn)
   //@@ contract
@@ -68,7 +72,7 @@ def assemble(tpl_path, repo=REPO):
             kv = parse_kv(st[len('//@@ fn '):])
             spec = dict(file=kv['file'], impl=kv.get('impl', ''), fn=kv['name'], nth=kv.get('nth', 0),
                         rules=[r for r in kv.get('rules', '').split(',') if r], ret=kv.get('ret', 'r'),
-                        loops={}, loop_tails={}, sig_sub=[])
+                        loops={}, loop_tails={}, sig_sub=[], ghost_args=[], ghost_params=[], closures={})
             section, buf = None, []
             i += 1
 
@@ -76,9 +80,11 @@ def assemble(tpl_path, repo=REPO):
                 if section is None:
                     return
                 txt = '\n'.join(buf)
-                if section in ('contract', 'proof', 'attrs'):
+                if section in ('contract', 'proof', 'attrs', 'entry'):
                     spec[section] = txt
-                elif isinstance(section, tuple):
+                elif isinstance(section, tuple) and section[0] == 'closure':
+                    spec['closures'][section[1]] = txt
+                elif isinstance(section, tuple) and section[0] == 'tail':
                     spec['loop_tails'][section[1]] = txt
                 else:
                     spec['loops'][section] = txt
@@ -87,9 +93,9 @@ def assemble(tpl_path, repo=REPO):
                 if st2.startswith('//@@ end'):
                     flush()
                     break
-                m = re.match(r'//@@ (contract|proof|attrs)\s*$', st2)
+                m = re.match(r'//@@ (contract|proof|attrs|entry)\s*$', st2)
                 m2 = re.match(r'//@@ loop (\d+)\s*$', st2)
-                m3 = re.match(r'//@@ sigsub /(.*)/ => (.*)$', st2)
+                m3 = re.match(r'//@@ sigsub /(.*)/ =>\s?(.*)$', st2)
                 m4 = re.match(r'//@@ looptail (\d+)\s*$', st2)
                 if m:
                     flush()
@@ -100,6 +106,14 @@ def assemble(tpl_path, repo=REPO):
                 elif m4:
                     flush()
                     section, buf = ('tail', int(m4.group(1))), []
+                elif re.match(r'//@@ closure (\d+)\s*$', st2):
+                    flush()
+                    section, buf = ('closure', int(re.match(r'//@@ closure (\d+)', st2).group(1))), []
+                elif st2.startswith('//@@ ghostparam '):
+                    spec['ghost_params'].append(st2[len('//@@ ghostparam '):].strip())
+                elif st2.startswith('//@@ ghostarg '):
+                    kv2 = parse_kv(st2[len('//@@ ghostarg '):])
+                    spec['ghost_args'].append((kv2['callee'].split(','), kv2['arg']))
                 elif m3:
                     spec['sig_sub'].append((m3.group(1), m3.group(2)))
                 elif st2.startswith('//@@'):
@@ -168,7 +182,7 @@ VERIFICATION_ERRORS = re.compile(
     r'postcondition not satisfied|precondition not satisfied|assertion failed|invariant not satisfied'
     r'|bitvector assertion not satisfied|possible arithmetic (?:underflow/overflow|overflow|underflow)'
     r'|possible division by zero|decreases not satisfied|nonlinear_arith|assertion not satisfied'
-    r'|possible bit shift underflow/overflow|index out of bounds|failed to prove|not satisfied|possible .* overflow')
+    r'|possible bit shift underflow/overflow|index out of bounds|failed to prove|unable to prove|not satisfied|possible .* overflow')
 
 
 def error_blocks(stderr):
